@@ -516,7 +516,7 @@ type Explorer struct {
 }
 
 func newExplorer() *Explorer {
-	ex := &Explorer{ConcretizeCap: 300, StepBudget: 3000000, DepthBudget: 3000, PerLabelCap: 4,
+	ex := &Explorer{ConcretizeCap: 300, StepBudget: 3000000, DepthBudget: 12000, PerLabelCap: 4,
 		Outcomes: map[string]int{}, Inconclusive: map[string]int{}, AssertStats: map[string]map[string]int{},
 		ReachCount: map[string]int{}, FuncsHit: map[string]int{}, violPerLabel: map[string]int{}, WriteRecs: map[string]int{}}
 	ex.cond = sync.NewCond(&ex.mu)
